@@ -467,7 +467,7 @@ func (s *Sim) serveHTTP(p *pend, f *FaultSpec) {
 		if f.Sticky {
 			p.proc.sticky[p.verb+" "+p.path+" "+targetStr(p.target)] = f
 		}
-		finish(pendResult{err: &simErr{"read tcp 10.0.0.2:5555->10.0.0.1:6443: read: connection reset by peer (simulated drop)"}}, 0, false)
+		finish(pendResult{err: &simErr{"dial tcp 10.0.0.1:6443: connect: connection refused (simulated drop)"}}, 0, false)
 	case FLostResponse:
 		r := apply()
 		rec.Note = fmt.Sprintf("applied with status %d, response lost", r.Status)
